@@ -16,6 +16,9 @@ CHECK = {
         T("susclock", "TestC11SuspendingDecorators",
           {"checks": 20000, "shards": 2, "timeout": 300},
           {"checks": 150000, "shards": 16, "timeout": 1500}),
+        T("susclock", "TestC11ExecutorTimeout",
+          {"checks": 10000, "shards": 2, "timeout": 300},
+          {"checks": 150000, "shards": 16, "timeout": 1500}),
     ],
 }
 META = {
